@@ -109,8 +109,11 @@ def run(tier, seed):
                 sel = combos   # configurations without SSE take different allocator / intrinsic-header paths per language level: all eight
             else:
                 # two (compiler, std) combinations per configuration and mode, rotating so every combination is used
-                k = (i * 2 + (1 if auto else 0)) % 8
-                sel = [combos[k], combos[(k + 5) % 8]]
+                # one g++ and one clang++ compile per configuration and mode, language levels rotating so that all eight
+                # (compiler, std) combinations are used across the matrix
+                k = (i * 3 + (4 if auto else 0)) % 8
+                stds = (11, 14, 17, 20)
+                sel = [('g++', stds[k % 4]), ('clang++', stds[(k + 1 + k // 4) % 4])]
             for comp, std in sel:
                 jobs.append(Job('c19_syntax.cpp', c, comp, std, 'plain', 0, autodetect=auto, syntax_only=True,
                                 cflags_override=['-O0'], label='syntax/%s/%s/%s-c++%d' % (configs.name(c), 'auto' if auto else 'explicit', comp, std)))
